@@ -105,7 +105,11 @@ func runC09(c *Ctx, r *Report) {
 	}
 	r.Doc("R-C09.9", "loaders and constructors examine every error result (manifest read, manifest decode, codec construction) before going on")
 	r.Doc("R-C09.10", "the loops that publish the heads, select the loaded heads and queue links process every element")
-	loopsComplete(c, r, "R-C09.10", func(fn *Fn) bool { return rootNamed(fn, "ToJSONLog", "entrySliceToCids", "fromMultihash", "fromEntryHash", "fromJSON", "fromEntry", "NewFromMultihash", "addHashesToQueue", "addNextEntry", "NewOrderedMapFromEntries") }, "heads or links after the point where the loop stops are not published, loaded or fetched: the rebuilt log lacks part of the history")
+	loopsComplete(c, r, "R-C09.10", func(fn *Fn) bool {
+		return rootNamed(fn, "ToJSONLog", "entrySliceToCids", "fromMultihash", "fromEntryHash", "fromJSON", "fromEntry", "NewFromMultihash", "addHashesToQueue", "addNextEntry", "NewOrderedMapFromEntries")
+	}, "heads or links after the point where the loop stops are not published, loaded or fetched: the rebuilt log lacks part of the history")
+	r.Doc("R-C09.11", "the indexes a rebuilt log starts with are keyed like the original's: entries by their own hash, the predecessor index by predecessor links")
+	indexKeys(c, r, "R-C09.11")
 	errDiscipline(c, r, "R-C09.9", func(fn *Fn) bool {
 		return rootNamed(fn, "fromMultihash", "fromEntryHash", "fromJSON", "fromEntry", "NewFromMultihash", "NewFromEntryHash", "NewFromJSON", "NewFromEntry", "NewLog", "FromMultihashWithIO")
 	}, "the loader carries on with the zero value of the failed step (a nil manifest, an undecoded block) and builds a log from it", deliberateDiscards)
@@ -498,23 +502,70 @@ func runC09(c *Ctx, r *Report) {
 	for _, ld := range loaders {
 		fn := p.FuncI("", "", ld.name)
 		tf := &Flow{P: p, Fn: fn, Entry: Facts{}}
-		tf.Edge = func(cond ast.Expr, taken bool, f Facts) {
-			if !taken {
-				return
-			}
-			ast.Inspect(cond, func(m ast.Node) bool {
+		// locals that carry the limit (assigned from an expression that reads the Length option)
+		limitLocals := map[types.Object]bool{}
+		mentionsLimit := func(e ast.Expr) bool {
+			found := false
+			ast.Inspect(e, func(m ast.Node) bool {
 				switch x := m.(type) {
 				case *ast.SelectorExpr:
 					if x.Sel.Name == "Length" {
-						f["limited"] = true
+						found = true
 					}
 				case *ast.Ident:
-					if x.Name == "length" {
-						f["limited"] = true
+					if limitLocals[p.ObjOf(fn, x)] {
+						found = true
 					}
 				}
 				return true
 			})
+			return found
+		}
+		for round := 0; round < 2; round++ {
+			walkNoLit(fn.Body, func(m ast.Node) bool {
+				if as, ok := m.(*ast.AssignStmt); ok && len(as.Lhs) == len(as.Rhs) {
+					for i, l := range as.Lhs {
+						if id, ok := ast.Unparen(l).(*ast.Ident); ok && mentionsLimit(as.Rhs[i]) {
+							if o := p.ObjOf(fn, id); o != nil {
+								limitLocals[o] = true
+							}
+						}
+					}
+				}
+				return true
+			})
+		}
+		tf.Edge = func(cond ast.Expr, taken bool, f Facts) {
+			// the limit value is known non-negative: `limit > -1`, `limit >= 0`, `limit > 0` … on this edge
+			for _, a := range splitCond(cond, taken) {
+				be, ok := ast.Unparen(a.E).(*ast.BinaryExpr)
+				if !ok || !mentionsLimit(be.X) {
+					continue
+				}
+				val, neg := "", false
+				switch y := ast.Unparen(be.Y).(type) {
+				case *ast.BasicLit:
+					val = y.Value
+				case *ast.UnaryExpr:
+					if lit, ok := y.X.(*ast.BasicLit); ok && y.Op == token.SUB {
+						val, neg = lit.Value, true
+					}
+				}
+				nonneg := false
+				switch {
+				case be.Op == token.GTR && a.Truth && ((val == "1" && neg) || (!neg && val != "")):
+					nonneg = true
+				case be.Op == token.GEQ && a.Truth && !neg && val != "":
+					nonneg = true
+				case be.Op == token.LSS && !a.Truth && !neg && val != "": // !(x < 0)
+					nonneg = true
+				case be.Op == token.LEQ && !a.Truth && val == "1" && neg: // !(x <= -1)
+					nonneg = true
+				}
+				if nonneg {
+					f["limited"] = true
+				}
+			}
 		}
 		tf.Run()
 		tf.Visit(func(_ *cfgBlk, n ast.Node, before Facts) {
